@@ -1,3 +1,4 @@
+import Stackage.Lemmas.GenSem
 import Stackage.Model.Cond
 
 /-!
@@ -120,7 +121,7 @@ theorem C06_valid (K : Closures) (c : Cnd) (hv : c.cfg.vpf = none) :
         simp [he, h2]
     | cmp code =>
       have hb : Gen.cond_op_bogus { assert := code } = true ↔ ¬ (1 ≤ code ∧ code ≤ 6) := by
-        unfold Gen.cond_op_bogus; simp; omega
+        rw [GenSem.cond_op_bogus, decide_eq_true_eq]
       by_cases hbog : Gen.cond_op_bogus { assert := code } = true
       · have := hb.mp hbog
         simp only [hbog, ↓reduceIte, reduceCtorEq, not_false_eq_true, Op.cmp.injEq, forall_eq', true_and, false_iff, not_and]
